@@ -208,11 +208,14 @@ class QueryBuilder:
             # nodes are created once and shared
             self.sel_exprs = [self.expr(s) for s in q["sel"]]
             conds = self.conds(q["cond"])
-            if q["desc"] == "entity":
-                d = entity(self.sel_exprs[0], *conds)
+            if q.get("short"):        # an(x, c1, c2) / an([x, y], c): the quantifier builds the descriptor itself
+                self.query = quant(self.sel_exprs[0] if q["desc"] == "entity" else list(self.sel_exprs), *conds)
             else:
-                d = set_of(self.sel_exprs, *conds)
-            self.query = quant(d)
+                if q["desc"] == "entity":
+                    d = entity(self.sel_exprs[0], *conds)
+                else:
+                    d = set_of(self.sel_exprs, *conds)
+                self.query = quant(d)
         return self.query
 
     # -- reading results ----------------------------------------------------
